@@ -47,6 +47,20 @@ class K3(Schema):
     opt: In = Field(required=False)
 
 
+class K5(Schema):
+    __options__ = Options(addition=int)
+    r: int = Field(ge=0)
+    o: int = Field(ge=0, required=False, on_error='exclude')
+    p: int = Field(ge=0, required=False, on_error='preserve')
+
+
+class K6(Schema):
+    __options__ = Options(invalid_values='exclude')
+    r: int = Field(ge=0)
+    o: int = Field(ge=0, required=False)
+    d: int = Field(ge=0, default=5)
+
+
 class K4(DataClass):
     r: int = Field(ge=0)
     o: int = Field(ge=0, required=False)
@@ -59,6 +73,10 @@ SPEC = {
                 'im': ('im', False, True, False), 'fin': ('fin', True, True, False)}, ['r', 'o', 'd', 'im', 'fin', 'zz']),
     'K2': (K2, {'a': ('A1', True, False, False), 'h': ('h', False, False, True), 'b': ('b', False, False, False)},
            ['a', 'A1', 'h', 'b', 's', 'zz']),
+    'K5': (K5, {'r': ('r', True, False, False), 'o': ('o', False, False, False), 'p': ('p', False, False, False)},
+           ['r', 'o', 'p', 'zz', 'yy']),
+    'K6': (K6, {'r': ('r', True, False, False), 'o': ('o', False, False, False), 'd': ('d', False, False, False)},
+           ['r', 'o', 'd', 'zz']),
     'K3': (K3, {'inner': ('inner', True, False, False), 'n': ('n', False, False, False), 'opt': ('opt', False, False, False)},
            ['inner', 'n', 'opt', 'zz']),
 }
@@ -102,6 +120,12 @@ def build(V, name, tag=''):
             kw['b'] = V.int(tag + 's_b', 0, None)
         else:
             absent.append('b')
+    elif name in ('K5', 'K6'):
+        kw['r'] = V.int(tag + 's_r', 0, None)
+        if V.bool(tag + 's_has_o'):
+            kw['o'] = V.int(tag + 's_o', 0, None)
+        if name == 'K5' and V.bool(tag + 's_has_zz'):
+            kw['zz'] = V.int(tag + 's_zz', -3, 3)
     else:
         kw['inner'] = {'x': V.int(tag + 's_x', 0, None)}
         kw['n'] = V.int(tag + 's_n', 0, None)
@@ -228,6 +252,11 @@ def valid(V, name, inst, sig_prefix, det, immutables, dep_changed=False):
             continue
         if required:
             V.check(present, sig_prefix + ':required-missing:' + att, det)
+        if not present:
+            # the attribute view agrees: nothing stale left behind in the instance dict
+            V.check(att not in attrs, sig_prefix + ':stale-attribute:' + att, det)
+        if present and name == 'K5' and att == 'p':
+            continue            # on_error='preserve' is the documented unsafe option
         if present:
             V.check(field_ok(name, att, data[okey]), sig_prefix + ':nonconforming:' + att, det)
             try:
@@ -239,6 +268,10 @@ def valid(V, name, inst, sig_prefix, det, immutables, dep_changed=False):
         if immutable and att in immutables:
             V.check(present and data[okey] == immutables[att], sig_prefix + ':immutable-changed:' + att, det)
     extra = set(data) - {f[0] for f in fields.values()} - ({'s'} if name == 'K2' else set())
+    if name == 'K5':
+        # addition=int: unknown keys are kept, converted
+        V.check(all(isinstance(data[k], int) and not isinstance(data[k], bool) for k in extra), sig_prefix + ':unparsed-addition', det)
+        extra = set()
     if name == 'K2' and 's' in data:
         V.check(ok_int(data['s']), sig_prefix + ':nonconforming:s', det)
     V.check(not extra, sig_prefix + ':unknown-key-stored', det)
